@@ -964,3 +964,46 @@ def latest(config="default"):
     import glob
     ds = glob.glob(os.path.join(os.path.dirname(os.path.dirname(os.path.abspath(__file__))), ".cache", "facts", f"*-{config}"))
     return max(ds, key=os.path.getmtime)
+
+
+PROV_CALLS = ("deref", "deref_mut", "as_str", "as_ref", "as_mut", "borrow", "borrow_mut", "as_slice", "as_bytes",
+              "clone", "must_use", "new_display", "new_debug", "into", "from")
+
+
+def provenance(f, local, limit=64):
+    """locals a value may derive from: follows copies, (re)borrows, field reads, casts, tuple/aggregate packing and
+    pass-through calls (deref/as_str/clone/...) backwards through every definition"""
+    seen = set()
+    st = [local]
+    while st and len(seen) < limit:
+        cur = st.pop()
+        if cur in seen:
+            continue
+        seen.add(cur)
+        for b, i, r in f.defs().get(cur, []):
+            if isinstance(r, dict) and r.get("k") == "partial":
+                r = r["r"] if isinstance(r["r"], dict) and "k" in r["r"] else None
+                if r is None:
+                    continue
+            if i == "t":
+                if cn(r).split("::")[-1] in PROV_CALLS:
+                    for a in r["args"][:1]:
+                        if a[0] in ("c", "m"):
+                            st.append(a[1][0])
+                continue
+            k = r.get("k")
+            if k in ("use", "cast", "un", "repeat"):
+                o = r["o"]
+                if o[0] in ("c", "m"):
+                    st.append(o[1][0])
+            elif k in ("ref", "rawptr", "discr"):
+                st.append(r["p"][0])
+            elif k == "agg":
+                for o in r["ops"]:
+                    if o[0] in ("c", "m"):
+                        st.append(o[1][0])
+            elif k == "bin":
+                for o in (r["a"], r["b"]):
+                    if o[0] in ("c", "m"):
+                        st.append(o[1][0])
+    return seen
